@@ -17,6 +17,7 @@ import (
 	"cuelang.org/go/internal/mod/modrequirements"
 	"cuelang.org/go/internal/mod/semver"
 	"cuelang.org/go/internal/par"
+	"cuelang.org/go/internal/simhook"
 	"cuelang.org/go/mod/module"
 )
 
@@ -420,6 +421,7 @@ func (pkgs *Packages) load(ctx context.Context, pkg *Package) {
 		}
 	}
 
+	simhook.Yield("modpkgload.load:before-imports")
 	pkg.imports = make([]*Package, 0, len(imports))
 	var importFlags Flags
 	if pkg.flags.has(PkgInAll) {
@@ -428,6 +430,7 @@ func (pkgs *Packages) load(ctx context.Context, pkg *Package) {
 	for _, path := range imports {
 		pkg.imports = append(pkg.imports, pkgs.addPkg(ctx, path, importFlags))
 	}
+	simhook.Yield("modpkgload.load:before-imports-loaded")
 	pkgs.applyPkgFlags(pkg, PkgImportsLoaded)
 }
 
@@ -438,6 +441,7 @@ func (pkgs *Packages) applyPkgFlags(pkg *Package, flags Flags) {
 	if flags == 0 {
 		return
 	}
+	simhook.Yield("modpkgload.applyPkgFlags")
 
 	if flags.has(PkgInAll) {
 		// This package matches a root pattern by virtue of being in "all".
@@ -449,6 +453,7 @@ func (pkgs *Packages) applyPkgFlags(pkg *Package, flags Flags) {
 
 	old := pkg.flags.update(flags)
 	new := old | flags
+	simhook.Yield("modpkgload.applyPkgFlags:after-update")
 	if new == old || !new.has(PkgImportsLoaded) {
 		// We either didn't change the state of pkg, or we don't know anything about
 		// its dependencies yet. Either way, we can't usefully load its test or
